@@ -20,8 +20,11 @@
   The concrete `Env` is `Model.ScriptEval.Real.realEnv` (Model/ScriptEnvReal.lean): SHA-1 / RIPEMD-160 /
   SHA-256 from Crypto/*, `sigCheck` = `Model.Sighash.rawSignatureHash` (C03's model) + SEC1 point
   decoding + strict DER + ECDSA verification from Crypto/Secp256k1 — the very term the theorems of
-  Props/C06Concrete.lean are about.  Nothing is refused: a transaction outside wire range or a
-  negative `inIdx` gets the modelled outcome (`err:py:<Class>` where RawSignatureHash raises).
+  Props/C06Concrete.lean are about.  No transaction the text form can express is refused: fields
+  outside wire range (nVersion ≥ 2³¹, nValue ≥ 2⁶³, nLockTime / nSequence / prevout.n ≥ 2³², hash ≠ 32 bytes)
+  and a negative `inIdx` get the modelled outcome (`err:py:error` = struct.error, `err:valueerr`,
+  `err:py:IndexError` where RawSignatureHash raises).  NOT expressible: negative values in the unsigned
+  fields (`Tx` has `Nat` there) — `bad-args`; such mutable objects are outside every model.
 -/
 import Driver.Util
 import Driver.TxFmt
